@@ -213,7 +213,12 @@ func (c *conn) run(ctx context.Context, handler Handler) {
 			rchan, ok := c.pending[msg.id]
 			c.pendingMu.Unlock()
 			if ok {
-				rchan <- msg
+				// A call takes one response. If the peer answers an id again before the call has
+				// gone, there is nobody to receive it: drop it rather than block the read loop.
+				select {
+				case rchan <- msg:
+				default:
+				}
 			}
 		}
 	}
